@@ -40,7 +40,7 @@ def stages():
         "laplacian_power": (lambda: C.LaplacianChannel(avg_noise_power=0.3), True, True, "gradcheck"),
         "laplacian_scale": (lambda: C.LaplacianChannel(scale=0.4), True, True, "gradcheck"),
         "laplacian_snr": (lambda: C.LaplacianChannel(snr_db=5.0), True, True, "fd"),
-        "phase_noise": (lambda: C.PhaseNoiseChannel(phase_noise_std=0.2), True, False, "gradcheck"),
+        "phase_noise": (lambda: C.PhaseNoiseChannel(phase_noise_std=0.2), True, True, "gradcheck"),
         "rayleigh_power": (lambda: C.RayleighFadingChannel(coherence_time=3, avg_noise_power=0.1), True, True, "gradcheck"),
         "rayleigh_snr": (lambda: C.RayleighFadingChannel(coherence_time=2, snr_db=10.0), True, True, "fd"),
         "rician_power": (lambda: C.RicianFadingChannel(k_factor=3.0, coherence_time=4, avg_noise_power=0.1), True, True, "gradcheck"),
